@@ -23,6 +23,7 @@ import (
 	"golang.org/x/telemetry/internal/verif/vstats"
 	"golang.org/x/telemetry/internal/verif/vstk/disp"
 	"golang.org/x/telemetry/internal/verif/vstk/long"
+	"golang.org/x/telemetry/internal/verif/vstk/uni"
 	"pgregory.net/rapid"
 )
 
@@ -174,13 +175,14 @@ func c14RealPCs() []uint64 {
 	return out
 }
 
-// c14LongPCs are PCs inside functions whose names have 270 to 281 bytes (one PC per function):
+// c14LongPCs are PCs inside functions whose names have 240 to 290 bytes (one PC per function; three of the
+// fifteen names consist of multi-byte characters):
 // sixteen such frames exceed the 4096-byte name limit, so the truncation clause is reachable.
 var c14LongPCs = func() []uint64 {
 	var out []uint64
-	chain := make([]int, long.N)
+	chain := make([]int, long.N+uni.N)
 	for i := range chain {
-		chain[i] = 16 + i
+		chain[i] = 16 + i // the steps of package long, then those of package uni (names of multi-byte characters)
 	}
 	disp.Run(chain, 0, func() {
 		buf := make([]uintptr, 64)
@@ -188,7 +190,7 @@ var c14LongPCs = func() []uint64 {
 		frs := runtime.CallersFrames(buf[:n])
 		for {
 			fr, more := frs.Next()
-			if strings.Contains(fr.Function, "/vstk/long.Function_") {
+			if strings.Contains(fr.Function, "/vstk/long.Function_") || strings.Contains(fr.Function, "/vstk/uni.") {
 				out = append(out, uint64(fr.PC))
 			}
 			if !more {
